@@ -72,6 +72,18 @@ def Heap.putFresh (h : Heap) (o : Nat) (f : Field) (m : AMap) : Heap :=
       { (h.setObj h.next (AMap.ofList m.toList)).updOwner o (·.setFld f (.slice h.next m.toList.length m.toList.length))
         with next := h.next + 1 }
 
+/-- capacity of a slice built by `n` single appends starting from nil -/
+def builtCap (grow : Nat → Nat → Nat) (n : Nat) : Nat :=
+  (List.range n).foldl (fun c i => if i + 1 ≤ c then c else max (grow c (i + 1)) (i + 1)) 0
+
+/-- slice field `f` of record `o` becomes a NEW array holding `xs` with capacity `c` (at least the length) -/
+def Heap.putSliceCap (h : Heap) (o : Nat) (f : Field) (xs : List Nat) (c : Nat) : Heap :=
+  if xs.isEmpty then h.updOwner o (·.setFld f .nil)
+  else
+    { (h.setObj h.next (AMap.ofList (xs ++ List.replicate (c - xs.length) 0))).updOwner o
+        (·.setFld f (.slice h.next xs.length (max c xs.length)))
+      with next := h.next + 1 }
+
 /-- where a field of a new record comes from -/
 inductive Src
   | share (v : FieldVal)
@@ -149,11 +161,13 @@ def stepH (grow : Nat → Nat → Nat) (h : Heap) : Prim → Heap
     if kind f = .slice ∧ o < h.count then h.appendSlice grow o f xs else h
   | .copyFrom o dst src =>
     if o < h.count then h.putFresh o dst (norm (kind dst) (h.absVal ((h.owner o).fld src))) else h
-  | .wrap o sl ch xs =>
+  | .wrap o sl ch xs built =>
     if kind sl = .slice ∧ kind ch = .box ∧ ¬ xs.isEmpty then
       if o < h.count then
         let chain := (h.absVal ((h.owner o).fld ch)).toList
-        let h1 := if chain.isEmpty then h.putFresh o sl (AMap.ofList xs) else h.appendSlice grow o sl xs
+        let h1 := if chain.isEmpty then
+            h.putSliceCap o sl xs (if built then builtCap grow xs.length else xs.length)
+          else h.appendSlice grow o sl xs
         h1.updBox o ch (fun m => m.set 0 (m.toList ++ xs))
       else h
     else h
@@ -171,7 +185,7 @@ def runHeapFrom (grow : Nat → Nat → Nat) (tc tr : Table) (h : Heap) : List O
   | [] => (h, [])
   | op :: ops =>
     let o := observe (abs h) op
-    let h' := runH grow h (compile tc tr h.count op)
+    let h' := if o = .err then h else runH grow h (compile tc tr h.count op)
     let (hf, os) := runHeapFrom grow tc tr h' ops
     (hf, o :: os)
 
